@@ -9,22 +9,39 @@ use std::sync::mpsc;
 use std::sync::{Arc, Mutex};
 use std::time::{Duration, Instant};
 
-/// address-space budget of a worker beyond its idle footprint (DESIGN 1.4: B = 1 GiB)
-pub const BUDGET_BYTES: u64 = 1 << 30;
+/// address-space budget of a decode call beyond the worker's footprint (DESIGN 1.4). As first built the limit was an
+/// absolute 1 GiB + 768 MiB idle allowance over a ~415 MiB worker, i.e. ~1.35 GiB of real headroom; the honest 32 MiB
+/// zlib bomb of the corruption set (3.3 million 10-byte elements) needs ~1.2 GiB of it. Now stated directly: 1.5 GiB.
+pub const BUDGET_BYTES: u64 = 1536 << 20;
 /// idle footprint allowance: binary, corpus, 256 MiB worker stack
 pub const IDLE_BYTES: u64 = 768 << 20;
 
 pub fn limit_address_space() {
-    // C03 judges allocations: 1 GiB beyond the idle footprint. The other worker-based checks only need isolation from
+    // C03 judges allocations: BUDGET_BYTES beyond the footprint. The other worker-based checks only need isolation from
     // aborts; their own bookkeeping (thousands of traced encodings per message in the thorough tier) must not be
     // mistaken for a library allocation failure, so they get a wide limit.
     let budget = std::env::var("VERIF_WORKER_BUDGET_MIB").ok().and_then(|v| v.parse::<u64>().ok()).map(|m| m << 20).unwrap_or(BUDGET_BYTES);
-    let lim = libc::rlimit { rlim_cur: budget + IDLE_BYTES, rlim_max: budget + IDLE_BYTES };
+    // soft limit only: C03 re-bases it on the worker's current footprint while it works (rebase_address_space_limit)
+    let lim = libc::rlimit { rlim_cur: budget + IDLE_BYTES, rlim_max: libc::RLIM_INFINITY };
     unsafe {
         libc::setrlimit(libc::RLIMIT_AS, &lim);
         // no core files
         let z = libc::rlimit { rlim_cur: 0, rlim_max: 0 };
         libc::setrlimit(libc::RLIMIT_CORE, &z);
+    }
+}
+
+/// C03 judges what a decode call allocates, not what the harness holds (thousands of traced encodings per message in
+/// the thorough tier): the limit becomes `current virtual size + budget`. Called between cases.
+pub fn rebase_address_space_limit() {
+    let budget = std::env::var("VERIF_WORKER_BUDGET_MIB").ok().and_then(|v| v.parse::<u64>().ok()).map(|m| m << 20).unwrap_or(BUDGET_BYTES);
+    let vm = std::fs::read_to_string("/proc/self/statm").ok().and_then(|s| s.split_whitespace().next().and_then(|p| p.parse::<u64>().ok())).map(|p| p * 4096);
+    if let Some(vm) = vm {
+        if std::env::var("VERIF_DEBUG_LIMIT").is_ok() { eprintln!("rebase: vm={} MiB budget={} MiB", vm >> 20, budget >> 20); }
+        let lim = libc::rlimit { rlim_cur: vm + budget, rlim_max: libc::RLIM_INFINITY };
+        unsafe {
+            libc::setrlimit(libc::RLIMIT_AS, &lim);
+        }
     }
 }
 
@@ -150,7 +167,12 @@ fn run_worker(id: &str, tier: &str, labels: &[String], timeout: Duration, trace_
 
 /// Processes `labels` in worker processes (`nworkers` at a time, `batch` labels per process).
 pub fn supervise(id: &str, tier: &str, labels: Vec<String>, nworkers: usize, batch: usize, timeout: Duration, extra_env: Vec<(String, String)>) -> Supervised {
-    let queue: Arc<Mutex<Vec<Vec<String>>>> = Arc::new(Mutex::new(labels.chunks(batch.max(1)).map(|c| c.to_vec()).rev().collect()));
+    supervise_batches(id, tier, labels.chunks(batch.max(1)).map(|c| c.to_vec()).collect(), nworkers, timeout, extra_env)
+}
+
+/// like `supervise` with the batches chosen by the caller (taken in the given order)
+pub fn supervise_batches(id: &str, tier: &str, batches: Vec<Vec<String>>, nworkers: usize, timeout: Duration, extra_env: Vec<(String, String)>) -> Supervised {
+    let queue: Arc<Mutex<Vec<Vec<String>>>> = Arc::new(Mutex::new(batches.into_iter().rev().collect()));
     let out: Arc<Mutex<(Vec<Value>, Vec<Death>)>> = Arc::new(Mutex::new((Vec::new(), Vec::new())));
     let mut handles = Vec::new();
     for w in 0..nworkers.max(1) {
